@@ -54,7 +54,7 @@ def _eval(test, p, case_cls, anc, alias):
         if any(v is True for v in vals):
             return True
         return False if all(v is False for v in vals) else None
-    if isinstance(test, ast.Call) and call_name(test) == "check" and call_recv(test) == p:
+    if isinstance(test, ast.Call) and call_name(test) == "check" and call_recv(test) in (p if isinstance(p, (set, frozenset)) else {p}):
         up = anc.get(case_cls, {case_cls})
         for a in test.args:
             nm = unparse(a).split(".")[-1]
@@ -67,15 +67,43 @@ def _eval(test, p, case_cls, anc, alias):
     return None
 
 
+def _param_aliases(h, p):
+    """the parameter and the locals that are only ever another name for it (`failure = result`)"""
+    ps = {p}
+    defs = {}
+    for n in ast.walk(h.node):
+        if isinstance(n, ast.Assign):
+            for t in n.targets:
+                for nm in ast.walk(t):
+                    if isinstance(nm, ast.Name):
+                        defs.setdefault(nm.id, []).append(n.value if isinstance(t, ast.Name) else None)
+        elif isinstance(n, (ast.AugAssign, ast.AnnAssign, ast.For, ast.NamedExpr)):
+            t = n.target
+            for nm in ast.walk(t):
+                if isinstance(nm, ast.Name):
+                    defs.setdefault(nm.id, []).append(None)
+    if p in defs:
+        return frozenset(ps)
+    changed = True
+    while changed:
+        changed = False
+        for nm, vals in defs.items():
+            if nm not in ps and all(isinstance(v, ast.Name) and v.id in ps for v in vals):
+                ps.add(nm)
+                changed = True
+    return frozenset(ps)
+
+
 def classify(ctx, h, case_cls, anc, alias, sink_pred):
     """'sink' if every normal path passes a sink; else 'propagate' if all the
     sink-free exits return the failure / raise; else 'absorb'."""
     cf = ctx.cfg(h)
     p = h.first_param()
+    ps = _param_aliases(h, p)
     dead = set()
     for n in cf.nodes:
         if n.kind == "test":
-            v = _eval(n.stmt.test, p, case_cls, anc, alias)
+            v = _eval(n.stmt.test, ps, case_cls, anc, alias)
             if v is not None:
                 for t, lab in cf.succ[n.id]:
                     if lab and lab[0] == "cond" and lab[2] != v:
@@ -102,7 +130,7 @@ def classify(ctx, h, case_cls, anc, alias, sink_pred):
     if not exits:
         return "sink", []
     prop = all(n.kind == "stmt" and isinstance(n.stmt, ast.Return) and isinstance(n.stmt.value, ast.Name)
-               and n.stmt.value.id == p for n in exits)
+               and n.stmt.value.id in ps for n in exits)
     return ("propagate" if prop else "absorb"), exits
 
 
@@ -152,7 +180,12 @@ def run(ctx):
             h = prog.resolve_callable(f, last["eb"])
             if h is None:
                 continue
-            returned = any(isinstance(x, ast.Return) and x.value is not None and norm(x.value) in aliases_of(f, root) for x in
+            def _chain_root_text(e):
+                # `return d.addErrback(h)` returns d
+                while isinstance(e, ast.Call) and isinstance(e.func, ast.Attribute) and e.func.attr in ("addCallback", "addErrback", "addBoth", "addCallbacks"):
+                    e = e.func.value
+                return norm(e)
+            returned = any(isinstance(x, ast.Return) and x.value is not None and _chain_root_text(x.value) in aliases_of(f, root) for x in
                            walk_body_shallow(f.body))
             # the handler is named by its role (registrar + chain), not by the name of the closure
             al_ = sorted(a for a in aliases_of(f, root) if a.startswith("self."))
